@@ -201,3 +201,19 @@ Theorem C03_side_conditions_satisfiable :
   (slash_freeb ["Constant"; "v"; "fori_body"] = true) /\ (cross_okb ["v"; "in0"] ["Constant"; "Not"] = true).
 Proof. exact side_conditions_satisfiable. Qed.
 Print Assumptions C03_side_conditions_satisfiable.
+
+(* ================================================================== call sites vs definitions: element types *)
+(* the validator run on every export also implies: all call sites of one model function pass the same known
+   element type at each argument position (the AST has no FunctionProto.value_info, so this is the statically
+   checkable form of "argument types agree with the definition": a definition built for one type and bound to a
+   call with another is rejected whenever the export contains the call it was built for) *)
+Theorem C03_wf_model_typed_sound : forall m, wf_model_typed m = true -> WF m /\ CallTypesAgree m.
+Proof. exact wf_model_typed_sound. Qed.
+Print Assumptions C03_wf_model_typed_sound.
+
+Theorem C03_call_types_example :
+  wf_model_typed (ex_calls "custom.F.1" 3) = false /\ wf_model (ex_calls "custom.F.1" 3) = true /\
+  wf_model_typed (ex_calls "custom.F.2" 3) = true /\ wf_model_typed (ex_calls "custom.F.1" 6) = true /\
+  wf_first_bad_typed (ex_calls "custom.F.1" 3) = Some "call-argument-types-differ|custom.F.1::F".
+Proof. exact ex_call_types. Qed.
+Print Assumptions C03_call_types_example.
